@@ -174,7 +174,7 @@ pub fn parse_hex_u64(t: &str) -> Result<u64, String> {
 
 /// Canonical `<kind>` of an io::Error.
 pub fn io_kind(e: &io::Error) -> String {
-    if e.kind() == io::ErrorKind::Other {
+    {
         if let Some(inner) = e.get_ref() {
             let m = inner.to_string();
             if let Some(k) = m.strip_prefix("injected ") {
@@ -189,6 +189,19 @@ pub fn io_kind(e: &io::Error) -> String {
 
 pub fn injected(k: u64) -> io::Error {
     io::Error::new(io::ErrorKind::Other, format!("injected {}", k))
+}
+
+/// A scripted READ error: the io::ErrorKind varies with the code (an error is an error whatever its kind;
+/// `Interrupted` and `WouldBlock` are the kinds code is most tempted to swallow).  Write / flush errors keep
+/// kind `Other`: std's `write_all` itself retries `Interrupted` by contract.
+pub fn injected_read(k: u64) -> io::Error {
+    let kind = match k % 4 {
+        0 => io::ErrorKind::Other,
+        1 => io::ErrorKind::Interrupted,
+        2 => io::ErrorKind::WouldBlock,
+        _ => io::ErrorKind::ConnectionReset,
+    };
+    io::Error::new(kind, format!("injected {}", k))
 }
 
 /// A float the harness met; rendered into the aux file.
